@@ -225,37 +225,215 @@ def stager_attrs(prog, cls):
     return out
 
 
-_tar_cache = {}
+# ------------------------------------------------------------------------------
+# what a local expression holds, as far as the tarball of the client side goes
+#
+#   ('tmp', site)      file object from tempfile.NamedTemporaryFile / TemporaryFile
+#   ('tar', X)         tarfile.open(..) object; X = shape of its fileobj= | None
+#   ('rec', ((field, shape), ..))   record: R(..) of a namedtuple / NamedTuple /
+#                      dataclass of the package
+#   ('tup', (shape, ..))            tuple / list display
+#
+# flow-insensitive over the assignments of one function, through record
+# constructors, tuple displays and unpacking, `with .. as`, and the return
+# values of the functions / methods of the package it calls.  Which local NAME
+# holds the object does not matter, only where it comes from.
+#
+TMP_CTORS = ('tempfile.NamedTemporaryFile', 'tempfile.TemporaryFile')
+RECORD_CTORS = ('collections.namedtuple', 'typing.NamedTuple')
 
 
-def tar_names(prog, f):
-    """local names bound to tarfile.open(...)"""
+def record_fields(prog, module, func_expr):
+    """field names (in positional order) when `func_expr` names a record type:
+    R = namedtuple('R', [..] | 'a b c'), class R(NamedTuple) / @dataclass"""
+    r = prog.resolve(module, func_expr)
+    if r and r[0] == 'const' and len(r[2]) == 1 and \
+            isinstance(r[2][0], ast.Call):
+        c = r[2][0]
+        x = prog.resolve(r[1], c.func)
+        if x and x[0] == 'ext' and x[1] in RECORD_CTORS:
+            spec = kwarg(c, 'field_names', 1) or kwarg(c, 'fields', 1)
+            if isinstance(spec, ast.Constant) and isinstance(spec.value, str):
+                return spec.value.replace(',', ' ').split()
+            if isinstance(spec, (ast.List, ast.Tuple)):
+                out = []
+                for e in spec.elts:
+                    if isinstance(e, (ast.Tuple, ast.List)) and e.elts:
+                        e = e.elts[0]
+                    if not (isinstance(e, ast.Constant) and
+                            isinstance(e.value, str)):
+                        return None
+                    out.append(e.value)
+                return out
+        return None
+    if r and r[0] == 'class':
+        k = r[1]
+        base = any((prog.resolve(k.module, b) or ('', ''))[1] ==
+                   'typing.NamedTuple' for b in k.node.bases)
+        deco = any('dataclass' in dotted(d.func if isinstance(d, ast.Call)
+                                         else d)
+                   for d in k.node.decorator_list)
+        if (base or deco) and '__init__' not in k.methods:
+            return [s.target.id for s in k.node.body
+                    if isinstance(s, ast.AnnAssign) and
+                    isinstance(s.target, ast.Name)]
+    return None
+
+
+def _own_nodes(fnode):
+    """nodes of a function without those of nested functions / classes"""
+    todo = list(fnode.body)
+    while todo:
+        n = todo.pop()
+        yield n
+        for c in ast.iter_child_nodes(n):
+            if not isinstance(c, (ast.FunctionDef, ast.AsyncFunctionDef,
+                                  ast.ClassDef, ast.Lambda)):
+                todo.append(c)
+
+
+def _join(shapes):
+    """one shape of several candidates (None = nothing known): records and
+    tuples are joined field by field; otherwise the first one wins"""
+    shapes = [s for s in shapes if s is not None]
+    if not shapes:
+        return None
+    a = shapes[0]
+    for b in shapes[1:]:
+        if a[0] == b[0] == 'rec' and [k for k, _ in a[1]] == \
+                [k for k, _ in b[1]]:
+            a = ('rec', tuple((k, _join([v, w])) for (k, v), (_, w)
+                              in zip(a[1], b[1])))
+        elif a[0] == b[0] == 'tup' and len(a[1]) == len(b[1]):
+            a = ('tup', tuple(_join([v, w]) for v, w in zip(a[1], b[1])))
+    return a
+
+
+_shape_cache = {}
+
+
+def _bindings(f):
+    """{local name: [(kind, value expr, index)]} of function f: kind 'val'
+    (name = value), 'elt' (name is element `index` of an unpacked value) or
+    'with' (with value as name)"""
     key = id(f.node)
-    if key not in _tar_cache:
-        if len(_tar_cache) > 500:
-            _tar_cache.clear()
-        _tar_cache[key] = (f.node, _tar_names(prog, f))
-    return _tar_cache[key][1]
-
-
-def _tar_names(prog, f):
-    out = set()
-    for n in walk(f.node):
-        if isinstance(n, ast.Assign) and isinstance(n.value, ast.Call):
-            r = prog.resolve(f.module, n.value.func)
-            if r and r[0] == 'ext' and r[1] == 'tarfile.open':
-                for t in n.targets:
-                    if isinstance(t, ast.Name):
-                        out.add(t.id)
-        elif isinstance(n, ast.With):
-            # with tarfile.open(..) as tar:
+    if key in _shape_cache:
+        return _shape_cache[key][1]
+    if len(_shape_cache) > 500:
+        _shape_cache.clear()
+    out = {}
+    for n in _own_nodes(f.node):
+        if isinstance(n, ast.Assign):
+            for t in n.targets:
+                if isinstance(t, ast.Name):
+                    out.setdefault(t.id, []).append(('val', n.value, None))
+                elif isinstance(t, (ast.Tuple, ast.List)) and not any(
+                        isinstance(e, ast.Starred) for e in t.elts):
+                    for i, e in enumerate(t.elts):
+                        if isinstance(e, ast.Name):
+                            out.setdefault(e.id, []).append(
+                                ('elt', n.value, i))
+        elif isinstance(n, ast.AnnAssign) and n.value is not None and \
+                isinstance(n.target, ast.Name):
+            out.setdefault(n.target.id, []).append(('val', n.value, None))
+        elif isinstance(n, (ast.With, ast.AsyncWith)):
             for it in n.items:
-                if isinstance(it.context_expr, ast.Call) and \
-                        isinstance(it.optional_vars, ast.Name):
-                    r = prog.resolve(f.module, it.context_expr.func)
-                    if r and r[0] == 'ext' and r[1] == 'tarfile.open':
-                        out.add(it.optional_vars.id)
+                if isinstance(it.optional_vars, ast.Name):
+                    out.setdefault(it.optional_vars.id, []).append(
+                        ('with', it.context_expr, None))
+    _shape_cache[key] = (f.node, out)
     return out
+
+
+def shape_of(prog, f, e, cls=None, depth=3, seen=frozenset()):
+    """shape (see above) of expression `e` of function `f`, or None"""
+    if isinstance(e, ast.Name):
+        if (id(f.node), e.id) in seen:
+            return None
+        seen = seen | {(id(f.node), e.id)}
+        cands = []
+        for kind, v, i in _bindings(f).get(e.id, ()):
+            s = shape_of(prog, f, v, cls, depth, seen)
+            if kind == 'elt':
+                s = s[1][i] if s and s[0] == 'tup' and i < len(s[1]) else None
+            cands.append(s)
+        return _join(cands)
+    if isinstance(e, ast.IfExp):
+        return _join([shape_of(prog, f, e.body, cls, depth, seen),
+                      shape_of(prog, f, e.orelse, cls, depth, seen)])
+    if isinstance(e, ast.BoolOp):
+        return _join([shape_of(prog, f, v, cls, depth, seen)
+                      for v in e.values])
+    if isinstance(e, (ast.Tuple, ast.List)):
+        if any(isinstance(x, ast.Starred) for x in e.elts):
+            return None
+        return ('tup', tuple(shape_of(prog, f, x, cls, depth, seen)
+                             for x in e.elts))
+    if isinstance(e, ast.Attribute):
+        b = shape_of(prog, f, e.value, cls, depth, seen)
+        if b and b[0] == 'rec':
+            return dict(b[1]).get(e.attr)
+        return None
+    if isinstance(e, ast.Subscript):
+        b = shape_of(prog, f, e.value, cls, depth, seen)
+        if b and b[0] in ('tup', 'rec') and \
+                isinstance(e.slice, ast.Constant) and \
+                isinstance(e.slice.value, int) and \
+                0 <= e.slice.value < len(b[1]):
+            x = b[1][e.slice.value]
+            return x[1] if b[0] == 'rec' else x
+        return None
+    if not isinstance(e, ast.Call):
+        return None
+    r = prog.resolve(f.module, e.func)
+    if r and r[0] == 'ext':
+        if r[1] == 'tarfile.open':
+            fo = kwarg(e, 'fileobj', 2)
+            return ('tar', shape_of(prog, f, fo, cls, depth, seen)
+                    if fo is not None else None)
+        if r[1] in TMP_CTORS:
+            return ('tmp', (f.where, getattr(e, 'lineno', 0),
+                            getattr(e, 'col_offset', 0)))
+        return None
+    fields = record_fields(prog, f.module, e.func)
+    if fields is not None:
+        if any(isinstance(a, ast.Starred) for a in e.args) or \
+                any(k.arg is None for k in e.keywords) or \
+                len(e.args) > len(fields):
+            return None
+        vals = {fl: None for fl in fields}
+        for fl, a in zip(fields, e.args):
+            vals[fl] = shape_of(prog, f, a, cls, depth, seen)
+        for k in e.keywords:
+            if k.arg in vals:
+                vals[k.arg] = shape_of(prog, f, k.value, cls, depth, seen)
+        return ('rec', tuple((fl, vals[fl]) for fl in fields))
+    if depth > 0:
+        callee = prog.resolve_call(f, e, cls)
+        if callee is not None and callee.node is not f.node:
+            rets = [n.value for n in _own_nodes(callee.node)
+                    if isinstance(n, ast.Return) and n.value is not None]
+            return _join([shape_of(prog, callee, v, cls, depth - 1, seen)
+                          for v in rets])
+    return None
+
+
+def holds(shape, what):
+    """shape is `what` or a record / tuple with a part that is"""
+    if shape is None:
+        return False
+    if shape == what:
+        return True
+    if shape[0] == 'rec':
+        return any(holds(v, what) for _, v in shape[1])
+    if shape[0] == 'tup':
+        return any(holds(v, what) for v in shape[1])
+    return False
+
+
+def is_tar(prog, f, e, cls=None):
+    s = shape_of(prog, f, e, cls)
+    return bool(s) and s[0] == 'tar'
 
 
 # ------------------------------------------------------------------------------
@@ -326,6 +504,30 @@ def is_tar_name_test(atom):
             n.value.endswith('.tar') for n in walk(atom))
 
 
+def _with_loops(f, key):
+    """a FuncInfo over a copy of `f` in which `L = [.. for sd in IT if C]` is
+    written as the loop it abbreviates (`L = list()` / `for sd in IT: if C:
+    L.append(..)`), when such a comprehension iterates over the task's `key`
+    directives; None when there is none"""
+    import copy
+    from ..model import FuncInfo
+    from ..normalize import desugar_comprehensions
+    hit = False
+    for n in walk(f.node):
+        if isinstance(n, ast.Assign) and isinstance(n.value, ast.ListComp) \
+                and len(n.value.generators) == 1:
+            it = n.value.generators[0].iter
+            if any(isinstance(x, ast.Constant) and x.value == key
+                   for x in walk(it)) or isinstance(it, ast.Name):
+                hit = True
+    if not hit:
+        return None
+    node = copy.deepcopy(f.node)
+    if not desugar_comprehensions(node):
+        return None
+    return FuncInfo(f.name, f.qual, f.module, f.cls, node, parent=f.parent)
+
+
 # ------------------------------------------------------------------------------
 # stager model: intake filter and handler
 #
@@ -338,7 +540,19 @@ class Stager:
         self.work = prog.method(self.rel, cname, mname)
         self.g    = cfg_of(self.work)
         self.smap = I.stmt_node_map(self.g)
-        self._intake()
+        try:
+            self._intake()
+        except AnalysisError:
+            # `L = [sd for sd in <..>[key] if <filter>]`: the same filter
+            # written as a comprehension - decided on a private copy of the
+            # method in which the comprehension is the loop it abbreviates
+            alt = _with_loops(self.work, self.key)
+            if alt is None:
+                raise
+            self.work = alt
+            self.g    = cfg_of(alt)
+            self.smap = I.stmt_node_map(self.g)
+            self._intake()
         self._handler()
 
     # intake: `for sd in <..>['input_staging' | 'output_staging']...:` with an
@@ -462,7 +676,6 @@ class Stager:
         if not self.stagers:
             raise AnalysisError('%s: no attribute holds a StagingHelper'
                                 % self.cls.where)
-        self.tars = tar_names(self.prog, self.handler)
 
     def derived(self, name):
         """names which hold (a transformation of) list `name`"""
@@ -498,7 +711,9 @@ class Stager:
                 if c.func.attr == 'handle_staging_directive':
                     return ('helper', c)
                 return ('op', c)
-            if recv in self.tars | tar_names(self.prog, f):
+            if is_tar(self.prog, f, c.func.value, self.cls) or (
+                    f is not self.handler and
+                    is_tar(self.prog, self.handler, c.func.value, self.cls)):
                 if c.func.attr in ('add', 'extractall', 'extract'):
                     return ('tar', c)
                 return 'pure'
@@ -512,15 +727,20 @@ class Stager:
                 return 'pure'
         elif isinstance(c.func, ast.Name) and c.func.id in PURE_BUILTINS:
             return 'pure'
+        if record_fields(self.prog, f.module, c.func) is not None:
+            return 'pure'                 # builds a record, nothing else
         callee = self.prog.resolve_call(f, c, self.cls)
         if callee is not None:
             if callee.module.rel == SD:
                 return 'pure'
             if callee.cls is not None and depth > 0:
-                for c2 in calls_in(callee.node):
-                    k = self.classify(c2, callee, depth - 1)
-                    if isinstance(k, tuple):
-                        return ('self', c)
+                kinds = [self.classify(c2, callee, depth - 1)
+                         for c2 in calls_in(callee.node)]
+                if any(isinstance(k, tuple) for k in kinds):
+                    return ('self', c)
+                if all(k in ('pure', 'neutral') for k in kinds):
+                    # a method of the stager which only computes
+                    return 'pure'
         return 'unknown'
 
     def directive_loops(self):
@@ -1847,6 +2067,9 @@ def r11_6(prog, rep, rid='R11.6'):
     for s in stagers(prog):
         f = s.handler
         ctx_eval = CtxEval(prog, f, s.cls)
+        # (name of a context dict, role it is used in) -> first such use; the
+        # role of a complete_url() call is decided by what it completes (a
+        # directive's source or its target), not by the name of the context
         roles = {}
         for c in calls_in(f.node):
             callee = prog.resolve_call(f, c, s.cls)
@@ -1862,53 +2085,71 @@ def r11_6(prog, rep, rid='R11.6'):
                             'UNRECOGNISED-IDIOM %s: `%s` completes neither a '
                             'directive source nor a target' % (f.where,
                                                                short(c, 60)))
-                    roles.setdefault(ctx.id, set()).add(
-                        'tgt' if 'target' in org else 'src')
+                    # (a default target is computed from the source: a
+                    # value which reads the target is the target)
+                    roles.setdefault(
+                        (ctx.id, 'tgt' if 'target' in org else 'src'), c)
             elif callee.name == 'expand_staging_directives':
                 for role, kw, pos in (('src', 'src_context', 1),
                                       ('tgt', 'tgt_context', 2)):
                     ctx = kwarg(c, kw, pos)
                     if isinstance(ctx, ast.Name):
-                        roles.setdefault(ctx.id, set()).add(role)
+                        roles.setdefault((ctx.id, role), c)
         seen = set()
-        for name, rs in sorted(roles.items()):
+        done = set()
+        for (name, role), use in sorted(roles.items(),
+                                        key=lambda x: x[0]):
             table = ctx_eval.dicts.get(name)
-            if len(rs) != 1 or table is None or '?' in table:
+            if table is None or '?' in table:
                 raise AnalysisError(
-                    'UNRECOGNISED-IDIOM %s: context %r is used for %s and %s'
-                    % (f.where, name, sorted(rs),
+                    'UNRECOGNISED-IDIOM %s: context %r (used for %s) %s'
+                    % (f.where, name, role,
                        'is not built as a dict the recogniser can follow'
                        if table is None else 'has computed keys'))
-            role = list(rs)[0]
             seen.add(role)
             want = dict(CTX_SOURCE)
             if s.side != 'client':
                 want.pop('client')
             want['pwd'] = CTX_PWD[(s.label, role)]
+            part = 'source' if role == 'src' else 'target'
+            # the use which gives the dict this role, when its own name says
+            # otherwise or it serves both
+            other = [r for (n, r) in roles if n == name and r != role]
+            via = ''
+            if other:
+                via = (' (the dict `%s` is also the %s context; here `%s` '
+                       'resolves a directive %s with it)'
+                       % (name, other[0], short(use, 60), part))
             for k, src in sorted(want.items()):
                 what = '%s %s context: %r is fed by task[%r]' % (
                     s.label, role, k, src)
                 if k not in table:
-                    rep.bad(rid, f, '%s:%s missing' % (role, k),
-                            '%s stager: the %s context has no entry %r: URLs '
-                            'with schema %s:// are left unresolved'
-                            % (s.label, role, k, k), f.loc(),
-                            history="a directive whose %s is '%s:///x'"
-                            % ('source' if role == 'src' else 'target', k))
+                    if (role, k) not in done:
+                        rep.bad(rid, f, '%s:%s missing' % (role, k),
+                                '%s stager: the %s context has no entry %r: '
+                                'URLs with schema %s:// are left unresolved%s'
+                                % (s.label, role, k, k, via), f.loc(),
+                                history="a directive whose %s is '%s:///x'"
+                                % (part, k))
+                    done.add((role, k))
                     continue
                 got = {"task[%r]" % x for x in table[k][0]
                        if x in CTX_SOURCE.values()}
-                rep.check(got == {"task[%r]" % src}, rid, f, what,
+                good = got == {"task[%r]" % src}
+                if not good and (role, k) in done:
+                    continue
+                if not good:
+                    done.add((role, k))
+                rep.check(good, rid, f, what,
                           construct='%s:%s' % (role, k),
                           message='%s stager: entry %r of the %s context is '
-                          'fed by %s, documented is task[%r]%s' % (
+                          'fed by %s, documented is task[%r]%s%s' % (
                               s.label, k, role, sorted(got) or 'no task entry',
                               src, ' (relative paths resolve against `pwd`)'
-                              if k == 'pwd' else ''),
-                          loc=f.loc(table[k][1]),
+                              if k == 'pwd' else '', via),
+                          loc=f.loc(use if other else table[k][1]),
                           history="a directive whose %s is %s" % (
-                              'source' if role == 'src' else 'target',
-                              "a relative path" if k == 'pwd'
+                              part, "a relative path" if k == 'pwd'
                               else "'%s:///x'" % k))
         if seen != {'src', 'tgt'}:
             raise AnalysisError('UNRECOGNISED-IDIOM %s: contexts found for %s '
@@ -2146,57 +2387,84 @@ def r11_8(prog, rep, rid='R11.8'):
     s = [x for x in stagers(prog) if x.label == 'client-in'][0]
     f, g = s.handler, s.hg
     smap = s.hsmap
-    tmp, tar = {}, {}
-    for n in walk(f.node):
-        if isinstance(n, ast.With):
-            for it in n.items:
-                r = prog.resolve(f.module, it.context_expr.func) \
-                    if isinstance(it.context_expr, ast.Call) else None
-                if r and r[0] == 'ext' and (r[1].startswith('tempfile.') or
-                                            r[1] == 'tarfile.open'):
-                    raise AnalysisError(
-                        'UNRECOGNISED-IDIOM %s: `with %s` - %s cannot follow '
-                        'context managers' % (f.where,
-                                              short(it.context_expr, 40), rid))
-        if isinstance(n, ast.Assign) and isinstance(n.value, ast.Call) and \
-                len(n.targets) == 1 and isinstance(n.targets[0], ast.Name):
-            r = prog.resolve(f.module, n.value.func)
-            if r and r[0] == 'ext' and r[1] in ('tempfile.NamedTemporaryFile',
-                                                'tempfile.TemporaryFile'):
-                tmp[n.targets[0].id] = n
-    for n in walk(f.node):
-        if isinstance(n, ast.Assign) and isinstance(n.value, ast.Call) and \
-                len(n.targets) == 1 and isinstance(n.targets[0], ast.Name):
-            r = prog.resolve(f.module, n.value.func)
-            fo = kwarg(n.value, 'fileobj', 2)
-            if r and r[0] == 'ext' and r[1] == 'tarfile.open' and \
-                    isinstance(fo, ast.Name) and fo.id in tmp:
-                tar[n.targets[0].id] = fo.id
+    # the handler and the methods of the stager it calls (the tarball may be
+    # created by one of them and come back as a value)
+    scope = [f]
+    for c in calls_in(f.node):
+        callee = prog.resolve_call(f, c, s.cls)
+        if callee is not None and callee.cls is not None and \
+                callee.module.rel == s.rel and not is_neutral(c) and \
+                all(callee.node is not k.node for k in scope):
+            scope.append(callee)
+    sites = {}                      # site -> (FuncInfo, creating call)
+    for k in scope:
+        for n in _own_nodes(k.node):
+            if isinstance(n, (ast.With, ast.AsyncWith)):
+                for it in n.items:
+                    r = prog.resolve(k.module, it.context_expr.func) \
+                        if isinstance(it.context_expr, ast.Call) else None
+                    if r and r[0] == 'ext' and (
+                            r[1].startswith('tempfile.') or
+                            r[1] == 'tarfile.open'):
+                        raise AnalysisError(
+                            'UNRECOGNISED-IDIOM %s: `with %s` - %s cannot '
+                            'follow context managers'
+                            % (k.where, short(it.context_expr, 40), rid))
+            if isinstance(n, ast.Call):
+                sh = shape_of(prog, k, n, s.cls)
+                if sh and sh[0] == 'tmp':
+                    sites[sh[1]] = (k, n)
+
+    def sh_of(k, e):
+        return shape_of(prog, k, e, s.cls)
+
     # does the name of the temporary file reach a directive source?
-    flows = {}
-    for t in tmp:
-        names = set()
+    flows = set()
+    for k in scope:
+        def name_of(x, k=k):
+            """site if x is `<temporary file>.name`"""
+            if isinstance(x, ast.Attribute) and x.attr == 'name':
+                sh = sh_of(k, x.value)
+                if sh and sh[0] == 'tmp':
+                    return sh[1]
+            return None
+        names = {}                  # local name -> sites its value reads
         for _ in range(4):
-            for n in walk(f.node):
+            for n in _own_nodes(k.node):
                 if isinstance(n, ast.Assign):
-                    reads = any(
-                        (isinstance(x, ast.Attribute) and x.attr == 'name' and
-                         isinstance(x.value, ast.Name) and x.value.id == t) or
-                        (isinstance(x, ast.Name) and x.id in names)
-                        for x in walk(n.value))
-                    if reads:
-                        for tg in n.targets:
-                            if isinstance(tg, ast.Name):
-                                names.add(tg.id)
-        for n in walk(f.node):
+                    got = set()
+                    for x in walk(n.value):
+                        if name_of(x):
+                            got.add(name_of(x))
+                        elif isinstance(x, ast.Name):
+                            got |= names.get(x.id, set())
+                    for tg in n.targets:
+                        if isinstance(tg, ast.Name) and got:
+                            names.setdefault(tg.id, set()).update(got)
+        for n in _own_nodes(k.node):
             if isinstance(n, ast.Dict):
-                for k, v in zip(n.keys, n.values):
-                    if isinstance(k, ast.Constant) and k.value == 'source' \
-                            and any(isinstance(x, ast.Name) and x.id in names
-                                    for x in walk(v)):
-                        flows[t] = n
-    pairs = [(ta, tm) for ta, tm in tar.items() if tm in flows]
-    if not pairs:
+                for key, v in zip(n.keys, n.values):
+                    if isinstance(key, ast.Constant) and key.value == 'source':
+                        for x in walk(v):
+                            if name_of(x):
+                                flows.add(name_of(x))
+                            elif isinstance(x, ast.Name):
+                                flows |= names.get(x.id, set())
+    # receivers of the handler: tarfile objects writing into such a file
+    # object, and the file objects themselves
+    tar_calls, tmp_calls = {}, {}   # site -> [(call, cfg node id)]
+    for c in calls_in(f.node):
+        if not isinstance(c.func, ast.Attribute) or smap.get(id(c)) is None:
+            continue
+        sh = sh_of(f, c.func.value)
+        if not sh:
+            continue
+        if sh[0] == 'tar' and sh[1] and sh[1][0] == 'tmp' and \
+                sh[1][1] in flows:
+            tar_calls.setdefault(sh[1][1], []).append((c, smap[id(c)].id))
+        elif sh[0] == 'tmp' and sh[1] in flows:
+            tmp_calls.setdefault(sh[1], []).append((c, smap[id(c)].id))
+    if not tar_calls:
         for what in ('closed', 'flushed'):
             rep.ok(rid, f, 'no tarball is written through a temporary file '
                    'object whose name is transferred (nothing to be %s)'
@@ -2204,33 +2472,52 @@ def r11_8(prog, rep, rid='R11.8'):
         return
     rep.saw(f)
 
-    def nodes_calling(name, attrs):
-        out = set()
-        for c in calls_in(f.node):
-            if isinstance(c.func, ast.Attribute) and c.func.attr in attrs and \
-                    isinstance(c.func.value, ast.Name) and \
-                    c.func.value.id == name and smap.get(id(c)) is not None:
-                out.add(smap[id(c)].id)
-        return out
+    def nodes_calling(calls, attrs):
+        return {nid for c, nid in calls if c.func.attr in attrs}
+
+    def spelled(what, k=None):
+        """how the handler (or function k) spells an object of shape `what`"""
+        k = k or f
+        cand = [x for x in _own_nodes(k.node)
+                if isinstance(x, (ast.Name, ast.Attribute)) and
+                sh_of(k, x) == what]
+        cand.sort(key=lambda x: (getattr(x, 'lineno', 0),
+                                 getattr(x, 'col_offset', 0)))
+        return unparse(cand[0]) if cand else None
 
     handling = {n.id for n in g.nodes if s.effect_of(n) and
                 s.effect_of(n)[0] in ('helper', 'op')}
     if not handling:
         raise AnalysisError('%s: no staging operation found in %s'
                             % (rid, f.where))
-    for ta, tm in pairs:
-        writes = nodes_calling(ta, ('add', 'addfile'))
-        closes = nodes_calling(ta, ('close',))
-        syncs  = nodes_calling(tm, ('close', 'flush'))
-        # once the tar object was written to, tests of its name are true
+    for site in sorted(tar_calls):
+        tcalls = sorted(tar_calls[site],
+                        key=lambda x: (x[0].lineno, x[0].col_offset))
+        kf, kcall = sites[site]
+        tmp_shape = ('tmp', site)
+        tar_shape = ('tar', tmp_shape)
+        ta = unparse(tcalls[0][0].func.value)
+        tm = spelled(tmp_shape) or spelled(tmp_shape, kf) or \
+            short(kcall, 40)
+        writes = nodes_calling(tcalls, ('add', 'addfile'))
+        closes = nodes_calling(tcalls, ('close',))
+        syncs  = nodes_calling(tmp_calls.get(site, ()), ('close', 'flush'))
+
+        def is_obj(e):
+            if not isinstance(e, (ast.Name, ast.Attribute)):
+                return False
+            sh = sh_of(f, e)
+            return holds(sh, tar_shape) or holds(sh, tmp_shape)
+        # once the tar object was written to, tests of it (or of the record
+        # which holds it) are true
         pr = [(n.id, 'F') for n in g.nodes if n.kind == 'test' and
-              isinstance(n.ast, ast.Name) and n.ast.id in (ta, tm)]
+              is_obj(n.ast)]
         for n in g.nodes:
             a = n.ast
             if n.kind == 'test' and isinstance(a, ast.Compare) and \
                     len(a.ops) == 1 and \
                     isinstance(a.ops[0], (ast.Is, ast.IsNot)) and \
-                    isinstance(a.left, ast.Name) and a.left.id in (ta, tm) and \
+                    is_obj(a.left) and \
                     isinstance(a.comparators[0], ast.Constant) and \
                     a.comparators[0].value is None:
                 pr.append((n.id, 'T' if isinstance(a.ops[0], ast.Is) else 'F'))
@@ -2253,7 +2540,7 @@ def r11_8(prog, rep, rid='R11.8'):
                   'the staging operation the tarfile object is not closed: '
                   'the end-of-archive blocks are not written' % (f.qual, tm,
                                                                  ta),
-                  loc=f.loc(tmp[tm]),
+                  loc=kf.loc(kcall),
                   history='a task with TARBALL input directives: the tarball '
                   'which arrives in the task sandbox is truncated')
         rep.check(bool(syncs) and not escapes(closes or writes, syncs), rid, f,
@@ -2267,7 +2554,7 @@ def r11_8(prog, rep, rid='R11.8'):
                   'flushed: closing the tarfile does not flush the file '
                   'object, so the tail of the archive is still in its '
                   'buffer when the file is copied' % (f.qual, tm, tm, tm, ta),
-                  loc=f.loc(tmp[tm]),
+                  loc=kf.loc(kcall),
                   history='a task with small TARBALL input directives: the '
                   'transferred <uid>.tar is empty or truncated and the agent '
                   'cannot unpack it')
@@ -2733,9 +3020,11 @@ class PathEval:
                                  self.eval(start, nid, seen), keeps=False)
             return U
         callee = self.prog.resolve_callable(self.f, e.func, self.cls)
-        if callee is not None and callee.node is self.curl.node and args:
+        if callee is not None and callee.node is self.curl.node and \
+                kwarg(e, self.curl.params[0], 0) is not None:
             return {('url', (v[1],)) if v[0] == 'raw' else
-                    ('?', short(e, 40)) for v in self.eval(args[0], nid, seen)}
+                    ('?', short(e, 40)) for v in self.eval(
+                        kwarg(e, self.curl.params[0], 0), nid, seen)}
         if isinstance(e.func, ast.Attribute):
             recv, m = e.func.value, e.func.attr
             if m in ('lstrip', 'strip') and len(args) == 1 and \
@@ -2763,11 +3052,11 @@ def tar_sites(s, attrs, depth=2):
             return
         done.add(id(f.node))
         ev = PathEval(s.prog, f, s.cls, binding)
-        names = tar_names(s.prog, f) | set(handed)
+        def tarobj(e):
+            return (isinstance(e, ast.Name) and e.id in handed) or \
+                is_tar(s.prog, f, e, s.cls)
         for c in calls_in(f.node):
-            if isinstance(c.func, ast.Attribute) and \
-                    isinstance(c.func.value, ast.Name) and \
-                    c.func.value.id in names:
+            if isinstance(c.func, ast.Attribute) and tarobj(c.func.value):
                 if c.func.attr in attrs:
                     out.append((ev, c))
             elif d > 0 and not is_neutral(c) and \
@@ -2777,13 +3066,11 @@ def tar_sites(s, attrs, depth=2):
                         callee.module.rel == s.rel:
                     # parameters which receive a tarfile object
                     params = [p for p in callee.params if p != 'self']
-                    handed = [params[i] for i, a in enumerate(c.args)
-                              if isinstance(a, ast.Name) and a.id in names
-                              and i < len(params)]
-                    handed += [k.arg for k in c.keywords if k.arg in params
-                               and isinstance(k.value, ast.Name) and
-                               k.value.id in names]
-                    scan(callee, (ev, c), d - 1, handed)
+                    sub = [params[i] for i, a in enumerate(c.args)
+                           if tarobj(a) and i < len(params)]
+                    sub += [k.arg for k in c.keywords if k.arg in params
+                            and tarobj(k.value)]
+                    scan(callee, (ev, c), d - 1, sub)
     scan(s.handler, None, depth)
     return out
 
@@ -3131,6 +3418,11 @@ def unconditional_effect(ops, m, eff_ids, what):
             n = g.nodes[nid]
             outs = [e for e in g.succ[nid] if e.label in _NORMAL]
             if n.kind in ('test', 'for') and any(e.dst not in R for e in outs):
+                if not g.reachable(nid, labels=_NORMAL) & set(eff_ids):
+                    # behind the effect (the exit status of a command which
+                    # ran, say): the way out is a refusal or an error, it does
+                    # not decide whether the effect is passed over
+                    continue
                 atom = n.ast if n.kind == 'test' else n.ast.iter
                 state, probes = ops.reads(m, atom)
                 out.append((n, atom, state, probes,
@@ -3234,23 +3526,677 @@ def r11_11(prog, rep, rid='R11.11'):
                         'instance) runs MOVE pilot:///exchange > task:///'
                         'inputs for another task; the output stager then gets '
                         'COPY task:///out.dat > pilot:///exchange/out.2.dat: '
-                        '%s.%s does nothing, `cp` fails, its exit code is not '
-                        'looked at, the task is advanced to '
-                        'TMGR_STAGING_OUTPUT_PENDING and the target does not '
-                        'exist' % (b.name, op))
-            # observation (unchanged tree): exit code of a call-out dropped
-            for n in walk(m.node):
-                if isinstance(n, ast.Expr) and isinstance(n.value, ast.Call) \
-                        and ops.ext(m, n.value.func) == \
-                        'radical.utils.sh_callout':
-                    rep.info(rid, m, '%s.%s drops the (out, err, ret) result '
-                             'of `%s`: a failing command (missing source, '
-                             'missing or read-only target directory, full '
-                             'disk) is not noticed, the directive counts as '
-                             'carried out and the task is advanced although '
-                             'the target does not exist (defect of the '
-                             'unchanged tree, not armed as a rule)'
-                             % (b.name, op, short(n.value, 50)), m.loc(n))
+                        '%s.%s does nothing and `cp` fails for the missing '
+                        'directory: a directive with nothing wrong about it '
+                        'is not carried out (the target does not exist; the '
+                        'task is advanced or, once the exit code of cp is '
+                        'looked at, failed)' % (b.name, op))
+
+
+def defs_at(g, name, nid):
+    """what the plain name `name` may hold when cfg node `nid` runs:
+    ([(defining cfg node, value expr | None)], initial) - the assignments
+    which reach the node (value None: tuple / loop / augmented binding), and
+    whether the value the name had at function entry (a parameter) may still
+    be there"""
+    from ..flow import reaching_defs
+    alld = set()
+    for n in g.nodes:
+        if n.ast is None:
+            continue
+        if n.kind == 'stmt' and isinstance(n.ast, (ast.Assign, ast.AnnAssign,
+                                                   ast.AugAssign)):
+            tg = n.ast.targets if isinstance(n.ast, ast.Assign) \
+                else [n.ast.target]
+            if any(name in stores_in_target(t) for t in tg):
+                alld.add(n.id)
+        elif n.kind == 'for' and name in stores_in_target(n.ast.target):
+            alld.add(n.id)
+    initial = nid in g.reachable(g.entry.id, skip_nodes=alld - {nid})
+    return reaching_defs(g, name, nid), initial
+
+
+def reach_all(g, start, pruned):
+    """{node id: (parent id, edge)} of the nodes reachable from `start`
+    without the pruned edges (loops included)"""
+    pruned = set(pruned)
+    parent = {start: None}
+    todo = [start]
+    while todo:
+        n = todo.pop(0)
+        for e in g.succ[n]:
+            if (e.src, e.label) in pruned:
+                continue
+            if e.dst not in parent:
+                parent[e.dst] = (n, e)
+                todo.append(e.dst)
+    return parent
+
+
+# ------------------------------------------------------------------------------
+# R11.12  a call-out which reports failure through its return value: the result
+#         is consumed and a failing exit status ends the operation with an
+#         exception
+#
+# callee -> where the exit status is in the result
+STATUS_CALLS = {
+    'radical.utils.sh_callout'  : ('index', 2),    # (out, err, ret)
+    'subprocess.getstatusoutput': ('index', 0),
+    'subprocess.call'           : ('value', None),
+    'os.system'                 : ('value', None),
+    'subprocess.run'            : ('attr', 'returncode'),
+}
+# the variants which raise for a failing command
+RAISING_CALLS = {'subprocess.check_call', 'subprocess.check_output'}
+# exit codes of a failed command the tests are evaluated for
+FAIL_CODES = (1, 2, 127, 255, -9)
+
+
+def status_calls(prog, m):
+    """[(call, callee, how)] of the calls of method m whose failure shows in
+    the return value only"""
+    out = []
+    for c in calls_in(m.node):
+        r = prog.resolve(m.module, c.func)
+        if r and r[0] == 'ext' and r[1] in STATUS_CALLS:
+            if r[1] == 'subprocess.run':
+                chk = kwarg(c, 'check')
+                if isinstance(chk, ast.Constant) and chk.value:
+                    out.append((c, r[1], ('raises', None)))
+                    continue
+            out.append((c, r[1], STATUS_CALLS[r[1]]))
+        elif r and r[0] == 'ext' and r[1] in RAISING_CALLS:
+            out.append((c, r[1], ('raises', None)))
+    return out
+
+
+def _parents(fnode):
+    out = {}
+    for n in walk(fnode):
+        for c in ast.iter_child_nodes(n):
+            out[id(c)] = n
+    return out
+
+
+def r11_12(prog, rep, rid='R11.12'):
+    rep.rule(rid, 'staging helper facade and backends: the result of every '
+             'call which reports failure through its return value only '
+             '(ru.sh_callout, subprocess.call / run without check, os.system) '
+             'is consumed, and for a failing exit status the operation cannot '
+             'end without an exception (or the result is returned to the '
+             'caller)', minimum=2)
+    helper, backends, delegated = staging_backends(prog)
+    for b in [helper] + backends:
+        for m in sorted(b.methods.values(), key=lambda x: x.name):
+            calls = status_calls(prog, m)
+            if not calls:
+                continue
+            rep.saw(m)
+            g = cfg_of(m)
+            smap = I.stmt_node_map(g)
+            par_of = _parents(m.node)
+            for c, callee, (how, where_) in calls:
+                short_callee = callee.replace('radical.utils.', 'ru.')
+                construct = 'exit status of %s' % short_callee
+                if how == 'raises':
+                    rep.ok(rid, m, '%s.%s: `%s` raises for a failing command'
+                           % (b.name, m.name, short(c, 40)), m.loc(c))
+                    continue
+                hist = ('a COPY / TRANSFER directive whose source does not '
+                        'exist (or whose target directory cannot be written): '
+                        'the command exits with 1, %s.%s returns normally, '
+                        'the stager counts the directive as carried out and '
+                        'advances the task although the target does not '
+                        'exist' % (b.name, m.name))
+                n = smap.get(id(c))
+                if n is None:
+                    raise AnalysisError(
+                        'UNRECOGNISED-IDIOM %s: `%s` is not part of a '
+                        'statement of the control flow graph'
+                        % (m.where, short(c, 50)))
+                # the expression the call's value flows into, up to the
+                # statement: c | c[i] | c.attr
+                top, proj = c, None
+                up = par_of.get(id(top))
+                if how == 'index' and isinstance(up, ast.Subscript) and \
+                        up.value is top and \
+                        isinstance(up.slice, ast.Constant):
+                    proj, top = up.slice.value, up
+                    up = par_of.get(id(top))
+                elif how == 'attr' and isinstance(up, ast.Attribute) and \
+                        up.value is top:
+                    proj, top = up.attr, up
+                    up = par_of.get(id(top))
+                # the statement which holds the call
+                stmt = up
+                while stmt is not None and not isinstance(stmt, ast.stmt):
+                    stmt = par_of.get(id(stmt))
+                if isinstance(stmt, ast.Return):
+                    rep.ok(rid, m, '%s.%s returns the result of `%s` to its '
+                           'caller' % (b.name, m.name, short(c, 40)), m.loc(c))
+                    continue
+                if isinstance(stmt, ast.Expr) and stmt.value is top and \
+                        (proj is None or how != 'value'):
+                    rep.bad(rid, m, 'result of %s discarded' % short_callee,
+                            '%s.%s discards the result of `%s`: %s does not '
+                            'raise when the command fails, it reports the '
+                            'exit status in its return value - a failing '
+                            'command (missing source, missing or read-only '
+                            'target directory, full disk) is not noticed and '
+                            'the operation returns as if it had been carried '
+                            'out' % (b.name, m.name, short(c, 60),
+                                     short_callee),
+                            m.loc(c), history=hist)
+                    continue
+                # names / expressions which hold the exit status
+                whole, status = set(), set()
+                direct = None              # the call is read inside a test
+                if isinstance(stmt, ast.Assign) and stmt.value is top:
+                    for t in stmt.targets:
+                        if isinstance(t, ast.Name):
+                            if proj is None and how != 'value':
+                                whole.add(t.id)
+                            elif proj is None or proj == where_:
+                                status.add(t.id)
+                        elif isinstance(t, (ast.Tuple, ast.List)) and \
+                                proj is None and how == 'index' and \
+                                not any(isinstance(e, ast.Starred)
+                                        for e in t.elts) and \
+                                where_ < len(t.elts) and \
+                                isinstance(t.elts[where_], ast.Name):
+                            status.add(t.elts[where_].id)
+                elif n.kind == 'test' or isinstance(stmt, ast.Assert):
+                    if how == 'value' or proj == where_:
+                        direct = top
+                else:
+                    raise AnalysisError(
+                        'UNRECOGNISED-IDIOM %s: the result of `%s` is neither '
+                        'returned, bound to names, tested nor discarded'
+                        % (m.where, short(c, 50)))
+
+                # where a name still holds what this call bound to it: on
+                # every path from the call to the node no other assignment
+                # of the name is passed
+                fresh = {}
+
+                def holds_result(name, at):
+                    if name not in fresh:
+                        kills = {k.id for k in g.nodes if k.id != n.id and
+                                 k.ast is not None and (
+                                     (k.kind == 'stmt' and isinstance(
+                                         k.ast, (ast.Assign, ast.AnnAssign,
+                                                 ast.AugAssign)) and any(
+                                         name in stores_in_target(t) for t in (
+                                             k.ast.targets if isinstance(
+                                                 k.ast, ast.Assign)
+                                             else [k.ast.target]))) or
+                                     (k.kind == 'for' and name in
+                                      stores_in_target(k.ast.target)))}
+                        nxt = [e.dst for e in g.succ[n.id]
+                               if e.label != 'exc']
+                        clear = g.reachable(nxt, skip_nodes=kills)
+                        dirty = set()
+                        for k in kills & g.reachable(nxt):
+                            dirty |= g.reachable(
+                                [e.dst for e in g.succ[k]])
+                        fresh[name] = clear - dirty
+                    return at in fresh[name]
+
+                def is_status(e, at):
+                    if direct is not None and e is direct:
+                        return True
+                    if isinstance(e, ast.Name) and e.id in status:
+                        return holds_result(e.id, at)
+                    base = None
+                    if how == 'index' and isinstance(e, ast.Subscript) and \
+                            isinstance(e.slice, ast.Constant) and \
+                            e.slice.value == where_:
+                        base = e.value
+                    elif how == 'attr' and isinstance(e, ast.Attribute) and \
+                            e.attr == where_:
+                        base = e.value
+                    if isinstance(base, ast.Name) and base.id in whole:
+                        return holds_result(base.id, at)
+                    return False
+
+                def evaluator(code, at):
+                    def ev(atom):
+                        if is_status(atom, at):
+                            return bool(code)
+                        if isinstance(atom, ast.Compare) and \
+                                len(atom.ops) == 1:
+                            l, r_ = atom.left, atom.comparators[0]
+                            if is_status(r_, at) and not is_status(l, at):
+                                return None     # canonical form: status left
+                            if is_status(l, at):
+                                rv = prog.fold(m.module, r_, m.cls)
+                                if rv is UNKNOWN:
+                                    return None
+                                op = atom.ops[0]
+                                try:
+                                    if isinstance(op, (ast.Eq, ast.Is)):
+                                        return code == rv
+                                    if isinstance(op, (ast.NotEq, ast.IsNot)):
+                                        return code != rv
+                                    if isinstance(op, ast.Lt):
+                                        return code < rv
+                                    if isinstance(op, ast.LtE):
+                                        return code <= rv
+                                    if isinstance(op, ast.Gt):
+                                        return code > rv
+                                    if isinstance(op, ast.GtE):
+                                        return code >= rv
+                                    if isinstance(op, ast.In):
+                                        return code in rv
+                                    if isinstance(op, ast.NotIn):
+                                        return code not in rv
+                                except TypeError:
+                                    return None
+                        return None
+                    return ev
+                # the status handed on (to a method which may raise for it,
+                # into a container): not followed here
+                for k in g.nodes:
+                    if k.ast is None or isinstance(k.ast, ast.Raise) or \
+                            k.id == n.id:
+                        continue
+                    for c2 in I.stmt_calls(k):
+                        if is_neutral(c2) or (
+                                isinstance(c2.func, ast.Name) and
+                                c2.func.id in PURE_BUILTINS):
+                            continue
+                        ops_ = list(c2.args) + [kw.value for kw in c2.keywords]
+                        if any(is_status(x, k.id) or (
+                                isinstance(x, ast.Name) and x.id in whole and
+                                holds_result(x.id, k.id))
+                               for a in ops_ for x in walk(a)):
+                            raise AnalysisError(
+                                'UNRECOGNISED-IDIOM %s: the exit status of '
+                                '`%s` is handed to `%s` - what that does with '
+                                'it is not followed'
+                                % (m.where, short(c, 40), short(c2, 50)))
+                witness = None
+                for code in FAIL_CODES:
+                    pruned = []
+                    for t in g.nodes:
+                        if t.kind == 'test':
+                            v = evaluator(code, t.id)(t.ast)
+                            if v is not None:
+                                pruned.append((t.id, 'F' if v else 'T'))
+                        elif t.kind == 'stmt' and \
+                                isinstance(t.ast, ast.Assert):
+                            v = evaluate_bool(t.ast.test,
+                                              evaluator(code, t.id))
+                            if v is not None:
+                                pruned.append((t.id, 'exc' if v else 'next'))
+                    # the call itself completes (it does not raise for a
+                    # failing command)
+                    par = reach_all(g, n.id, pruned + [(n.id, 'exc')])
+                    if g.exit.id in par:
+                        witness = (code, literals(g, par, g.exit.id))
+                        break
+                rep.check(witness is None, rid, m,
+                          '%s.%s: with a failing exit status of `%s` the '
+                          'operation ends with an exception'
+                          % (b.name, m.name, short(c, 40)),
+                          construct=construct,
+                          message='%s.%s binds the result of `%s` but for the '
+                          'exit status %s it still ends without an exception '
+                          '(path: %s): %s does not raise when the command '
+                          'fails - the failure is not noticed and the '
+                          'operation returns as if it had been carried out'
+                          % (b.name, m.name, short(c, 60),
+                             witness[0] if witness else '',
+                             ' ; '.join(witness[1]) or 'no test of the status'
+                             if witness else '', short_callee),
+                          loc=m.loc(c), history=hist)
+
+
+# ------------------------------------------------------------------------------
+# R11.13  complete_url: the sandbox URL of a context entry is extended by the
+#         PATH COMPONENT of the parsed argument - the argument itself (and the
+#         string of the parsed URL) still carries `<schema>://`
+#
+def r11_13(prog, rep, rid='R11.13'):
+    rep.rule(rid, 'complete_url: what extends the URL taken from the context '
+             'is the path component of the parsed argument (`<parsed>.path`), '
+             'never the argument or the whole parsed URL, which carry the '
+             'schema', minimum=1)
+    f = prog.function(SD, 'complete_url')
+    params = f.params
+    if len(params) < 2:
+        raise AnalysisError('%s: %s has no (path, context) parameters'
+                            % (rid, f.where))
+    arg, ctx = params[0], params[1]
+    g = cfg_of(f)
+    smap = I.stmt_node_map(g)
+
+    def is_url(e):
+        r = prog.resolve(f.module, e)
+        return bool(r) and r[0] == 'ext' and r[1] == 'radical.utils.Url'
+
+    def kinds(e, nid, seen=frozenset()):
+        """what the value of e (read when cfg node nid runs) is made of: 'raw'
+        the argument (schema included), 'url' the argument parsed, 'part' the
+        path component of that, 'meta' another component, 'ctx' a context
+        entry, 'base' a URL not made from the argument"""
+        if isinstance(e, ast.Name):
+            if (e.id, nid) in seen:
+                return set()
+            seen = seen | {(e.id, nid)}
+            defs, initial = defs_at(g, e.id, nid)
+            out = set()
+            if initial and e.id == arg:
+                out.add('raw')
+            if initial and e.id == ctx:
+                out.add('ctx')
+            for dn, v in defs:
+                if v is None:
+                    # tuple / augmented binding: whatever the statement reads
+                    v = getattr(dn.ast, 'value', None)
+                    if isinstance(dn.ast, ast.AugAssign):
+                        out |= kinds(ast.Name(id=e.id, ctx=ast.Load()),
+                                     dn.id, seen)
+                if v is not None:
+                    out |= kinds(v, dn.id, seen)
+            return out
+        if isinstance(e, ast.Subscript) and 'ctx' in kinds(e.value, nid, seen):
+            return {'ctx'}
+        if isinstance(e, ast.Call):
+            if isinstance(e.func, ast.Attribute) and \
+                    e.func.attr in ('get', 'pop', 'setdefault') and \
+                    'ctx' in kinds(e.func.value, nid, seen):
+                return {'ctx'}
+            if is_url(e.func) and e.args:
+                k = kinds(e.args[0], nid, seen)
+                if 'ctx' in k:
+                    return {'base'} | (k & {'raw', 'url', 'part'})
+                if k & {'raw', 'url'}:
+                    return {'url'}
+                return {'base'} | (k & {'part'})
+        if isinstance(e, ast.Attribute):
+            k = kinds(e.value, nid, seen)
+            if 'url' in k:
+                return (k - {'url'}) | \
+                    ({'part'} if e.attr == 'path' else {'meta'})
+            return k
+        out = set()
+        for c in ast.iter_child_nodes(e):
+            if isinstance(c, ast.keyword):
+                out |= kinds(c.value, nid, seen)
+            elif isinstance(c, ast.expr):
+                out |= kinds(c, nid, seen)
+        return out
+
+    def at(n):
+        cn = smap.get(id(n))
+        if cn is None:
+            raise AnalysisError('UNRECOGNISED-IDIOM %s: `%s` is not part of a '
+                                'statement of the control flow graph'
+                                % (f.where, short(n, 50)))
+        return cn.id
+    sites = []                       # (node, value expr, what)
+    for n in _own_nodes(f.node):
+        if isinstance(n, (ast.Assign, ast.AugAssign)):
+            tg = n.targets if isinstance(n, ast.Assign) else [n.target]
+            for t in tg:
+                if isinstance(t, ast.Attribute) and t.attr == 'path':
+                    k = kinds(t.value, at(n))
+                    if k & {'base', 'ctx'}:
+                        sites.append((n, n.value, 'the path of the URL `%s` '
+                                      'built from the context'
+                                      % short(t.value, 30)))
+        elif isinstance(n, ast.Call) and is_url(n.func) and n.args:
+            k = kinds(n.args[0], at(n))
+            if 'ctx' in k and k & {'raw', 'url', 'part'}:
+                sites.append((n, n.args[0], 'the URL parsed from a context '
+                              'entry and the argument'))
+
+    def plain_only(n):
+        """the site only runs for an argument without schema (the parsed
+        schema is tested to be 'pwd', the schema complete_url itself gives to
+        a relative path): the argument IS its path component there"""
+        cn = smap.get(id(n))
+        if cn is None:
+            return False
+        for tid, lab in guards(g, cn.id):
+            cc = const_compare(prog, f.module, g.nodes[tid].ast, f.cls)
+            if cc and cc[2] == frozenset(['pwd']) and \
+                    (cc[1] == 'in') == (lab == 'T'):
+                try:
+                    ke = kinds(ast.parse(cc[0], mode='eval').body, tid)
+                except SyntaxError:
+                    ke = set()
+                if 'meta' in ke:
+                    return True
+        return False
+    good = False
+    for n, v, what in sites:
+        k = kinds(v, at(n))
+        if not k & {'raw', 'url', 'part'}:
+            continue
+        whole = k & {'raw', 'url'}
+        if whole and plain_only(n):
+            rep.info(rid, f, 'observation: `%s` uses the argument itself, '
+                     'under a test that it has no schema' % short(n, 60),
+                     f.loc(n))
+            continue
+        if not whole:
+            good = True
+        rep.check(not whole, rid, f,
+                  '%s is extended by the path component of the parsed '
+                  'argument' % what, construct='expanded path',
+                  message='complete_url extends %s with `%s`, which is made '
+                  'of %s: for `<schema>:///x` (every explicit sandbox URL: '
+                  'client://, task://, pilot://, session://, resource://, '
+                  'endpoint://) the result is <sandbox>/<schema>:///x instead '
+                  'of <sandbox>/x; only paths without schema resolve as '
+                  'before' % (what, short(v, 60),
+                              ' and '.join(sorted(
+                                  {'raw': 'the unparsed argument',
+                                   'url': 'the whole parsed URL'}[x]
+                                  for x in whole))),
+                  loc=f.loc(n),
+                  history="input directive {source: 'client:///data/in.dat', "
+                  "target: 'task:///sub/in.dat'}: source and target resolve "
+                  "to <sandbox>/client:///data/in.dat and <sandbox>/task:///"
+                  "sub/in.dat, `cp` fails, the task is advanced without the "
+                  "file")
+    if not good and not any(fd.rule == rid for fd in rep.findings):
+        rep.bad(rid, f, 'expanded path',
+                'complete_url never extends the URL of a context entry by '
+                'the path component of its argument: every sandbox URL '
+                'resolves to the sandbox directory itself', f.loc(),
+                history="any directive with target 'task:///x'")
+
+
+# ------------------------------------------------------------------------------
+# R11.14  the directory an operation creates in front of its effect is a PARENT
+#         of the directive's target, never the target itself (the target is the
+#         entry the directive names)
+#
+MKDIR_EXT = {'os.makedirs', 'os.mkdir', 'radical.utils.rec_makedir'}
+# calls which keep the location a value denotes
+SAME_PLACE_EXT = {'radical.utils.Url', 'os.path.normpath', 'os.path.abspath',
+                  'os.path.expanduser', 'os.path.expandvars',
+                  'os.path.realpath', 'os.fspath'}
+
+
+def target_positions(prog):
+    """index (among the arguments) at which handle_staging_directive passes
+    the directive's target to the operation it dispatches to"""
+    f = prog.method(HELPER, 'StagingHelper', 'handle_staging_directive')
+    helper = prog.cls(HELPER, 'StagingHelper')
+    pos = set()
+    for c in calls_in(f.node):
+        if is_neutral(c) or not c.args:
+            continue
+        d = call_name(c)
+        local = isinstance(c.func, ast.Name) and \
+            c.func.id not in PURE_BUILTINS
+        own = d.startswith('self.') and d.count('.') == 1 and \
+            prog.find_method(helper, d[5:]) is not None
+        table = isinstance(c.func, ast.Subscript) or (
+            isinstance(c.func, ast.Call))
+        if not (local or own or table):
+            continue
+        for i, a in enumerate(c.args):
+            if 'target' in _origin_keys(f, a) and \
+                    'source' not in _origin_keys(f, a):
+                pos.add(i)
+    return f, pos
+
+
+def r11_14(prog, rep, rid='R11.14'):
+    rep.rule(rid, 'staging backends: the directory an operation creates '
+             'before it writes the target of a directive is a parent of the '
+             'target (os.path.dirname), never the target path itself',
+             minimum=4)
+    helper, backends, delegated = staging_backends(prog)
+    hf, pos = target_positions(prog)
+    if len(pos) != 1:
+        raise AnalysisError('UNRECOGNISED-IDIOM %s: the directive\'s target '
+                            'is passed at argument position(s) %s'
+                            % (hf.where, sorted(pos)))
+    p0 = list(pos)[0]
+    hf, table = helper_table(prog)
+    opnames = sorted({o for kind, ops in table.values() if kind == 'op'
+                      for o in ops})
+    for op in opnames:
+        fm = prog.find_method(helper, op)
+        fparams = [p for p in fm.params if p != 'self']
+        if p0 >= len(fparams):
+            raise AnalysisError('UNRECOGNISED-IDIOM %s has no parameter %d'
+                                % (fm.where, p0))
+        tparam = fparams[p0]
+        # (class, method, name of the parameter which holds the target)
+        todo = [(helper, fm, tparam)]
+        for c in calls_in(fm.node):
+            d = call_name(c)
+            if not d.startswith('self._backend.'):
+                continue
+            for b in backends:
+                bm = prog.find_method(b, d.split('.')[-1])
+                if bm is None:
+                    continue
+                bparams = [p for p in bm.params if p != 'self']
+                for i, a in enumerate(c.args):
+                    if isinstance(a, ast.Name) and a.id == tparam and \
+                            i < len(bparams):
+                        todo.append((b, bm, bparams[i]))
+                for k in c.keywords:
+                    if isinstance(k.value, ast.Name) and \
+                            k.value.id == tparam and k.arg in bparams:
+                        todo.append((b, bm, k.arg))
+        for b, m, tp in todo:
+            mg = cfg_of(m)
+            msmap = I.stmt_node_map(mg)
+
+            def ext(e, m=m):
+                r = prog.resolve(m.module, e)
+                return r[1] if r and r[0] == 'ext' else None
+
+            def place(e, nid, seen=frozenset(), tp=tp, mg=mg, ext=ext):
+                """relations ('same' | 'parent' | 'below' | '?') of the
+                location e denotes, read when cfg node nid runs, to the
+                location the target parameter names"""
+                up = lambda k: {'parent' if r in ('same', 'parent') else '?'
+                                for r in k}
+                if isinstance(e, ast.Name):
+                    if (e.id, nid) in seen:
+                        return set()
+                    seen = seen | {(e.id, nid)}
+                    defs, initial = defs_at(mg, e.id, nid)
+                    out = set()
+                    if initial:
+                        out.add('same' if e.id == tp else '?')
+                    for dn, v in defs:
+                        out |= place(v, dn.id, seen) if v is not None \
+                            else {'?'}
+                    return out
+                if isinstance(e, ast.Attribute) and e.attr == 'path':
+                    return place(e.value, nid, seen)
+                if isinstance(e, ast.Call):
+                    x = ext(e.func)
+                    if (x in SAME_PLACE_EXT or (
+                            isinstance(e.func, ast.Name) and
+                            e.func.id == 'str')) and len(e.args) == 1:
+                        return place(e.args[0], nid, seen)
+                    if x == 'os.path.dirname' and len(e.args) == 1:
+                        return up(place(e.args[0], nid, seen))
+                    if x == 'os.path.join' and e.args:
+                        k = place(e.args[0], nid, seen)
+                        return {'below' if r in ('same', 'below') else '?'
+                                for r in k}
+                    if isinstance(e.func, ast.Attribute) and \
+                            e.func.attr == 'rstrip' and len(e.args) == 1 \
+                            and isinstance(e.args[0], ast.Constant) and \
+                            e.args[0].value == '/':
+                        return place(e.func.value, nid, seen)
+                if isinstance(e, ast.Subscript) and \
+                        isinstance(e.value, ast.Call) and \
+                        ext(e.value.func) == 'os.path.split' and \
+                        isinstance(e.slice, ast.Constant) and \
+                        e.slice.value == 0 and len(e.value.args) == 1:
+                    return up(place(e.value.args[0], nid, seen))
+                return {'?'}
+            for c in calls_in(m.node):
+                d = call_name(c)
+                mk = ext(c.func) in MKDIR_EXT
+                if not mk and d.startswith('self.') and d.count('.') == 1 \
+                        and d[5:] == 'mkdir' and \
+                        prog.find_method(b, 'mkdir') is not None and \
+                        m.name != 'mkdir':
+                    mk = True
+                if not mk and d.startswith('self.') and d.count('.') == 1 \
+                        and not is_neutral(c) and msmap.get(id(c)) is not None:
+                    # the target handed to another method of the class
+                    callee = prog.find_method(b, d[5:])
+                    if callee is not None and \
+                            all(callee.node is not x[1].node for x in todo):
+                        cps = [p for p in callee.params if p != 'self']
+                        for i, a in enumerate(c.args):
+                            if i < len(cps) and \
+                                    place(a, msmap[id(c)].id) == {'same'}:
+                                todo.append((b, callee, cps[i]))
+                        for kw in c.keywords:
+                            if kw.arg in cps and \
+                                    place(kw.value,
+                                          msmap[id(c)].id) == {'same'}:
+                                todo.append((b, callee, kw.arg))
+                if not mk or not c.args:
+                    continue
+                cn = msmap.get(id(c))
+                if cn is None:
+                    raise AnalysisError(
+                        'UNRECOGNISED-IDIOM %s: `%s` is not part of a '
+                        'statement of the control flow graph'
+                        % (m.where, short(c, 50)))
+                rel = place(c.args[0], cn.id)
+                if not rel & {'same', 'parent', 'below'}:
+                    continue                 # another location
+                rep.saw(m)
+                rep.check('same' not in rel and 'below' not in rel, rid, m,
+                          '%s.%s creates a parent directory of its target '
+                          '`%s` (`%s`)' % (b.name, m.name, tp, short(c, 50)),
+                          construct='mkdir of the target',
+                          message='%s.%s runs `%s` on the path of its target '
+                          '`%s` itself%s: the target of a directive names the '
+                          'entry to be created (file, link or copied tree), '
+                          'the directory to make is its parent '
+                          '(os.path.dirname).  With the target already there '
+                          'as a directory a move / recursive copy puts the '
+                          'source INSIDE it (<target>/<basename of the '
+                          'source>), a link / download fails'
+                          % (b.name, m.name, short(c, 50), tp,
+                             ' (or below it)' if 'below' in rel else ''),
+                          loc=m.loc(c),
+                          history="directive {action: %s, source: "
+                          "'pilot:///stage/mv_in.dat', target: 'task:///"
+                          "inputs/mv_in.dat'}: <task sandbox>/inputs/"
+                          "mv_in.dat becomes a directory which contains "
+                          "mv_in.dat; the task is advanced, its payload "
+                          "opens a directory" % op.upper())
 
 
 # ------------------------------------------------------------------------------
@@ -3282,13 +4228,25 @@ def run(prog, rep, tier):
         '(absolute = relative to `/`) and the agent unpacks it under that '
         'location; every facade / backend operation of the staging helper '
         'passes its file system effect on every path which ends without an '
-        'exception (no early return decided by instance state).')
+        'exception (no early return decided by instance state); a call-out '
+        'of the helper which reports failure in its return value '
+        '(ru.sh_callout, subprocess.call/run, os.system) has its result '
+        'consumed and cannot end the operation normally for a failing exit '
+        'status; the context dict a stager passes to complete_url / '
+        'expand_staging_directives for a source (target) carries the '
+        'documented source (target) table, whatever the dict is called; '
+        'complete_url extends the URL of a context entry by the path '
+        'component of its parsed argument; the directory a backend '
+        'operation makes in front of its effect is a parent of the '
+        'directive\'s target, never the target itself.')
     rep.undecided = ('file contents and remote transfers; that the backend '
         'operations do what their names say (cp/mv/ln semantics, SAGA); '
         'that the exception which leaves the per-task handler fails that '
         'task only is decided by R05.4 (C05); exceptions swallowed inside '
         'StagingHelper or its backends; retry loops and failures which are '
-        'noted and raised later stop the analysis.')
+        'noted and raised later stop the analysis; exit codes of call-outs '
+        'outside of the staging helper (the bulk mkdir of the client input '
+        'stager only logs the status of its remote `tar xvf`).')
     rep.assumptions = [
         'the action of a directive is read as sd[\'action\'] (or a local name '
         'bound to it) and compared with constants; tests on anything else are '
@@ -3310,6 +4268,11 @@ def run(prog, rep, tier):
         'in a helper backend every call which is not logging, a str / '
         'os.path / ru.Url computation or book-keeping on a container '
         'attribute counts as (part of) the effect of the operation',
+        'ru.sh_callout returns (stdout, stderr, exit status) and does not '
+        'raise for a command which fails (radical.utils); failing exit '
+        'statuses are sampled as 1, 2, 127, 255, -9',
+        'ru.Url(x).path, str(), os.path.normpath/abspath keep the location '
+        'a value names; os.path.dirname / os.path.split()[0] name its parent',
     ]
     r11_1(prog, rep)
     r11_1b(prog, rep)
@@ -3324,6 +4287,9 @@ def run(prog, rep, tier):
     r11_9(prog, rep)
     rep.attempt(r11_10, prog, rep)
     rep.attempt(r11_11, prog, rep)
+    rep.attempt(r11_12, prog, rep)
+    rep.attempt(r11_13, prog, rep)
+    rep.attempt(r11_14, prog, rep)
     if tier == 'thorough':
         r11_4s(prog, rep)
         r11_6b(prog, rep, rid='R11.6s', sweep=True)
@@ -3810,8 +4776,18 @@ _H_MKDIR = ("    def mkdir(self, tgt, flags):\n"
 _H_RMDIR = ("    def rmdir(self, tgt, flags):\n"
             "        tgt = ru.Url(tgt).path\n"
             "        os.rmdir(tgt)\n")
-_H_CP    = ("        self.mkdir(os.path.dirname(tgt), flags)\n"
-            "        ru.sh_callout('cp -r %s %s' % (src, tgt))\n")
+# F22: the local copy looks at the exit status of cp (applied first wherever a
+# variant edits the copy: `make_overlay` takes an edit which is already in the
+# tree as applied, so the variants work before and after the repair is committed)
+_F22 = ('utils/staging_helper.py',
+        "        ru.sh_callout('cp -r %s %s' % (src, tgt))\n",
+        "        out, err, ret = ru.sh_callout('cp -r %s %s' % (src, tgt))\n"
+        "        if ret:\n"
+        "            raise RuntimeError('copy failed: %s -> %s: %s' % (src, tgt, err))\n")
+_H_CALL  = "        out, err, ret = ru.sh_callout('cp -r %s %s' % (src, tgt))\n"
+_H_CHECK = ("        if ret:\n"
+            "            raise RuntimeError('copy failed: %s -> %s: %s' % (src, tgt, err))\n")
+_H_CP    = ("        self.mkdir(os.path.dirname(tgt), flags)\n" + _H_CALL)
 _H_FACADE_INIT  = "        self._log  = log\n\n        try   : self._backend"
 _H_FACADE_MKDIR = ("    def mkdir(self, tgt, flags=None):\n"
                    "        self._log.debug('mkdir %s', tgt)\n"
@@ -3883,12 +4859,12 @@ MUTATIONS += [
              "        self._dirs.add(tgt)\n")]),
     dict(name='R11.11 sibling site: copy skips the parent mkdir for directories it has seen', rules=('R11.11',), edits=[
         (_H, _H_LOCAL_INIT, _H_LOCAL_INIT_DIRS),
+        _F22,
         (_H, _H_CP,
              "        parent = os.path.dirname(tgt)\n"
              "        if parent not in self._dirs:\n"
              "            self.mkdir(parent, flags)\n"
-             "            self._dirs.add(parent)\n"
-             "        ru.sh_callout('cp -r %s %s' % (src, tgt))\n")]),
+             "            self._dirs.add(parent)\n" + _H_CALL)]),
     dict(name='R11.11 facade remembers the directories it was asked for', rules=('R11.11',), edits=[
         (_H, _H_FACADE_INIT, "        self._log  = log\n        self._made = set()\n\n        try   : self._backend"),
         (_H, _H_FACADE_MKDIR,
@@ -3954,18 +4930,282 @@ SILENT += [
              "        path = ru.Url(tgt).path\n"
              "        ru.rec_makedir(path)\n")]),
     dict(name='local copy: parent directory through an extracted method', edits=[
-        (_H, _H_CP,
-             "        self._parent(tgt, flags)\n"
-             "        ru.sh_callout('cp -r %s %s' % (src, tgt))\n\n"
-             "    def _parent(self, tgt, flags):\n"
+        _F22,
+        (_H, _H_CP + _H_CHECK,
+             "        self._parent(tgt, flags)\n" + _H_CALL + _H_CHECK +
+             "\n    def _parent(self, tgt, flags):\n"
              "        self.mkdir(os.path.dirname(tgt), flags)\n")]),
     dict(name='local delete tolerates OSError only', edits=[
         (_H, "        try   : os.unlink(tgt)\n        except: pass\n",
              "        try:\n            os.unlink(tgt)\n        except OSError:\n            pass\n")]),
-    dict(name='local copy looks at the exit code of cp', edits=[
-        (_H, _H_CP,
+    dict(name='local copy looks at the exit code of cp', edits=[_F22]),
+]
+
+
+# ------------------------------------------------------------------------------
+# round 4: R11.6 per use (seed g3), R11.12 (exit status of call-outs, F22),
+# R11.13 (complete_url, seed g2), R11.14 (parent directory, seed g6),
+# refactorings r7 / r8
+#
+_CORPUS4 = {
+    'C11-r7': [
+        ('staging_directives.py',
+         '# ------------------------------------------------------------------------------\n#\ndef expand_staging_directives(sds:         Union[str, Dict[str, Any], List[str]],\n                              src_context: Dict[str, str] = None,\n',
+         '# ------------------------------------------------------------------------------\n#\n# Redirection operators of the string form, in the order in which they are\n# looked for (`>>` and `<<` need to be checked before `>` and `<`).  The flag\n# tells if the source is found on the left hand side of the operator.\n#\n_REDIRECTS = [(\'>>\', True ),\n              (\'>\' , True ),\n              (\'<<\', False),\n              (\'<\' , False)]\n\n\ndef _split_redirect(sd: str):\n    """Split a string directive into its `(source, target)` parts."""\n\n    for op, src_first in _REDIRECTS:\n\n        if op not in sd:\n            continue\n\n        lhs, rhs = sd.split(op, 2)\n\n        if src_first: return lhs, rhs\n        else        : return rhs, lhs\n\n    # no redirection: the target is named like the source\n    return sd, os.path.basename(ru.Url(sd).path)\n\n\n# ------------------------------------------------------------------------------\n#\ndef expand_staging_directives(sds:         Union[str, Dict[str, Any], List[str]],\n                              src_context: Dict[str, str] = None,\n'),
+        ('staging_directives.py',
+         "            # string.\n\n            if   '>>' in sd: src, tgt = sd.split('>>', 2)\n            elif '>'  in sd: src, tgt = sd.split('>' , 2)\n            elif '<<' in sd: tgt, src = sd.split('<<', 2)\n            elif '<'  in sd: tgt, src = sd.split('<' , 2)\n            else           : src, tgt = sd, os.path.basename(ru.Url(sd).path)\n\n            # FIXME: ns = session ID\n",
+         '            # string.\n\n            src, tgt = _split_redirect(sd)\n\n            # FIXME: ns = session ID\n'),
+        ('staging_directives.py',
+         "        log.debug('  -> %s', purl)\n\n    if purl.schema not in list(context.keys()):\n\n        ret = purl\n",
+         "        log.debug('  -> %s', purl)\n\n    schema = purl.schema\n\n    if schema not in list(context.keys()):\n\n        ret = purl\n"),
+        ('staging_directives.py',
+         '\n    else:\n\n        expand = True\n\n        # we expect hostname elements to be absent for schemas we expand\n',
+         '\n    else:\n\n        # we expect hostname elements to be absent for schemas we expand\n'),
+        ('staging_directives.py',
+         "                raise\n\n        if purl.schema == 'file':\n            # we leave `file://` URLs unaltered\n            ret = purl\n            expand = False\n\n        elif purl.schema == 'pwd' and 'pwd' not in context:\n            ret = ru.Url(os.getcwd())\n\n        else:\n            ret = ru.Url(context[purl.schema])\n\n        if expand:\n            ret.path += '/%s' % purl.path\n\n        if expand:\n            if log:\n                log.debug('   expand with %s', context.get(purl.schema))\n\n    if log:\n",
+         "                raise\n\n        if schema == 'file':\n            # we leave `file://` URLs unaltered\n            ret = purl\n\n        else:\n            if schema == 'pwd' and 'pwd' not in context:\n                ret = ru.Url(os.getcwd())\n            else:\n                ret = ru.Url(context[schema])\n\n            ret.path += '/%s' % purl.path\n\n            if log:\n                log.debug('   expand with %s', context.get(schema))\n\n    if log:\n"),
+    ],
+    'C11-r8': [
+        ('tmgr/staging_input/default.py',
+         'import tempfile\nimport tarfile\n\nimport radical.utils as ru\n',
+         'import tempfile\nimport tarfile\n\nfrom collections import namedtuple\n\nimport radical.utils as ru\n'),
+        ('tmgr/staging_input/default.py',
+         "TASK_BULK_MKDIR_THRESHOLD = 1024 * 1024\nTASK_BULK_MKDIR_MECHANISM = 'tar'\n\n\n",
+         "TASK_BULK_MKDIR_THRESHOLD = 1024 * 1024\nTASK_BULK_MKDIR_MECHANISM = 'tar'\n\n# client side state of the tarball which collects the TARBALL directives of\n# a task: the temporary file, its path, the tarfile writing to it, and the\n# staging directive which transfers it\nTarball = namedtuple('Tarball', ['tmp_file', 'path', 'tar_file', 'sd'])\n\n\n"),
+        ('tmgr/staging_input/default.py',
+         "            # check if we have any staging directives to be enacted in this\n            # component\n            actionables = list()\n            for sd in task['description'].get('input_staging', []):\n                if sd['action'] in [rpc.TRANSFER, rpc.TARBALL]:\n                    actionables.append(sd)\n\n            if actionables:\n",
+         "            # check if we have any staging directives to be enacted in this\n            # component\n            actionables = [sd for sd\n                              in task['description'].get('input_staging', [])\n                              if sd['action'] in [rpc.TRANSFER, rpc.TARBALL]]\n\n            if actionables:\n"),
+        ('tmgr/staging_input/default.py',
+         '    # --------------------------------------------------------------------------\n    #\n    def _handle_task(self, task, actionables):\n\n',
+         "    # --------------------------------------------------------------------------\n    #\n    def _open_tarball(self, uid):\n\n        # create a tarfile in a temporary file, and a directive to transfer it\n        # into the task sandbox\n        tmp_file = tempfile.NamedTemporaryFile(prefix='rp_usi_%s.' % uid,\n                                               suffix='.tar',\n                                               delete=False)\n        tar_path = tmp_file.name\n        tar_file = tarfile.open(fileobj=tmp_file, mode='w')\n        tar_src  = ru.Url('file://localhost/%s' % tar_path)\n        tar_tgt  = ru.Url('task:///%s.tar'      % uid)\n        tar_sd   = {'action' : rpc.TRANSFER,\n                    'flags'  : rpc.DEFAULT_FLAGS,\n                    'uid'    : ru.generate_id('sd'),\n                    'source' : str(tar_src),\n                    'target' : str(tar_tgt),\n                   }\n\n        return Tarball(tmp_file, tar_path, tar_file, tar_sd)\n\n\n    # --------------------------------------------------------------------------\n    #\n    def _handle_task(self, task, actionables):\n\n"),
+        ('tmgr/staging_input/default.py',
+         '        # create a new actionable list during the filtering\n        new_actionables = list()\n        tar_file        = None\n        tar_path        = None\n        tar_sd          = None\n\n        for sd in actionables:\n',
+         '        # create a new actionable list during the filtering\n        new_actionables = list()\n        tarball         = None\n\n        for sd in actionables:\n'),
+        ('tmgr/staging_input/default.py',
+         "\n                # create a tarfile on the first match, and register for transfer\n                if not tar_file:\n                    tmp_file = tempfile.NamedTemporaryFile(\n                                                prefix='rp_usi_%s.' % uid,\n                                                suffix='.tar',\n                                                delete=False)\n                    tar_path = tmp_file.name\n                    tar_file = tarfile.open(fileobj=tmp_file, mode='w')\n                    tar_src  = ru.Url('file://localhost/%s' % tar_path)\n                    tar_tgt  = ru.Url('task:///%s.tar'      % uid)\n                    tar_did  = ru.generate_id('sd')\n                    tar_sd   = {'action' : rpc.TRANSFER,\n                                'flags'  : rpc.DEFAULT_FLAGS,\n                                'uid'    : tar_did,\n                                'source' : str(tar_src),\n                                'target' : str(tar_tgt),\n                               }\n                    new_actionables.append(tar_sd)\n\n                    self._log.debug('create tar sd %s', tar_sd)\n\n                # add the src file\n                tar_file.add(src.path, arcname=tgt.path)\n\n                self._prof.prof('staging_in_tar_stop',  uid=uid, msg=did)\n",
+         "\n                # create a tarfile on the first match, and register for transfer\n                if not tarball:\n                    tarball = self._open_tarball(uid)\n                    new_actionables.append(tarball.sd)\n\n                    self._log.debug('create tar sd %s', tarball.sd)\n\n                # add the src file\n                tarball.tar_file.add(src.path, arcname=tgt.path)\n\n                self._prof.prof('staging_in_tar_stop',  uid=uid, msg=did)\n"),
+        ('tmgr/staging_input/default.py',
+         '        # make sure tarball is flushed to disk: closing the tarfile object does\n        # not flush or close the temporary file it writes to\n        if tar_file:\n            tar_file.close()\n            tmp_file.close()\n\n        new_actionables = expand_staging_directives(new_actionables,\n',
+         '        # make sure tarball is flushed to disk: closing the tarfile object does\n        # not flush or close the temporary file it writes to\n        if tarball:\n            tarball.tar_file.close()\n            tarball.tmp_file.close()\n\n        new_actionables = expand_staging_directives(new_actionables,\n'),
+        ('tmgr/staging_input/default.py',
+         "            self._prof.prof('staging_in_stop', uid=uid, msg=sd['uid'])\n\n        if tar_file:\n\n            assert tar_path\n            assert tar_sd\n\n            # some tarball staging was done.  Add a staging directive for the\n            # agent to untar the tarball, and clean up.\n            tar_sd['action'] = rpc.TARBALL\n            task['description']['input_staging'].append(tar_sd)\n            os.remove(tar_path)\n\n\n",
+         "            self._prof.prof('staging_in_stop', uid=uid, msg=sd['uid'])\n\n        if tarball:\n\n            assert tarball.path\n            assert tarball.sd\n\n            # some tarball staging was done.  Add a staging directive for the\n            # agent to untar the tarball, and clean up.\n            tarball.sd['action'] = rpc.TARBALL\n            task['description']['input_staging'].append(tarball.sd)\n            os.remove(tarball.path)\n\n\n"),
+    ],
+}
+
+SILENT += [dict(name='corpus %s' % k, edits=v) for k, v in sorted(_CORPUS4.items())]
+
+_TI_CURL = ("                src = complete_url(src, src_context, self._log)\n"
+            "                tgt = complete_url(tgt, tgt_context, self._log)\n")
+_TI_EXPAND = ("        new_actionables = expand_staging_directives(new_actionables,\n"
+              "                                            src_context, tgt_context, self._log)\n")
+_AI_CURL = ("            src = complete_url(src, src_context, self._log)\n"
+            "            tgt = complete_url(tgt, tgt_context, self._log)\n")
+_SD_APPEND = "            ret.path += '/%s' % purl.path\n"
+_H_MOVE = ("        self.mkdir(os.path.dirname(tgt), flags)\n"
+           "        shutil.move(src, tgt)\n")
+_H_LINK = ("        self.mkdir(os.path.dirname(tgt), flags)\n"
+           "        os.link(src, tgt)\n")
+_H_DOWN = ("        self.mkdir(os.path.dirname(tgt), flags)\n"
+           "        r = requests.get(src, stream=True)\n")
+_H_IMPORT = "import os\nimport shutil\nimport requests\n"
+
+MUTATIONS += [
+    # --- R11.6: the context which completes a target is the target context
+    dict(name='R11.6 seed C11-g3: tarball target completed with the source context', rules=('R11.6',), edits=[
+        (_TI, _TI_CURL,
+              "                src = complete_url(src, src_context, self._log)\n"
+              "                tgt = complete_url(tgt, src_context, self._log)\n")]),
+    dict(name='R11.6 tarball source completed with the target context', rules=('R11.6',), edits=[
+        (_TI, _TI_CURL,
+              "                src = complete_url(src, tgt_context, self._log)\n"
+              "                tgt = complete_url(tgt, tgt_context, self._log)\n")],
+         note='relative sources are looked up in the task sandbox instead of the client sandbox'),
+    dict(name='R11.6 client transfer directives expanded with the target context twice', rules=('R11.6',), edits=[
+        (_TI, _TI_EXPAND,
+              "        new_actionables = expand_staging_directives(new_actionables,\n"
+              "                                            tgt_context, tgt_context, self._log)\n")]),
+    dict(name='R11.6 client transfer directives expanded with swapped contexts, by keyword', rules=('R11.6',), edits=[
+        (_TI, _TI_EXPAND,
+              "        new_actionables = expand_staging_directives(new_actionables,\n"
+              "                              tgt_context=src_context, src_context=tgt_context,\n"
+              "                              log=self._log)\n")]),
+    dict(name='R11.6 corpus C11-r8, tarball target completed with the source context', rules=('R11.6',), edits=_CORPUS4['C11-r8'] + [
+        (_TI, _TI_CURL,
+              "                src = complete_url(src, src_context, self._log)\n"
+              "                tgt = complete_url(tgt, src_context, self._log)\n")]),
+    dict(name='R11.8 corpus C11-r8, temporary file of the tarball record never closed', rules=('R11.8',), edits=_CORPUS4['C11-r8'] + [
+        (_TI, "            tarball.tmp_file.close()\n", "            pass\n")]),
+    dict(name='R11.2 corpus C11-r8, comprehension filter loses TRANSFER', rules=('R11.2',), edits=_CORPUS4['C11-r8'] + [
+        (_TI, "                              if sd['action'] in [rpc.TRANSFER, rpc.TARBALL]]",
+              "                              if sd['action'] in [rpc.TARBALL]]")]),
+    # --- R11.12: exit status of a call-out
+    dict(name='R11.12 sibling site: move by `mv` call-out, result discarded', rules=('R11.12',), edits=[
+        (_H, _H_MOVE,
              "        self.mkdir(os.path.dirname(tgt), flags)\n"
-             "        out, err, ret = ru.sh_callout('cp -r %s %s' % (src, tgt))\n"
+             "        ru.sh_callout('mv %s %s' % (src, tgt))\n")]),
+    dict(name='R11.12 exit status bound but only logged', rules=('R11.12',), edits=[
+        _F22,
+        (_H, _H_CHECK, "        self._log.debug('cp: %s %s %s', out, err, ret)\n")]),
+    dict(name='R11.12 exit status tested with the wrong polarity', rules=('R11.12',), edits=[
+        _F22,
+        (_H, "        if ret:\n            raise RuntimeError('copy failed", "        if not ret:\n            raise RuntimeError('copy failed")]),
+    dict(name='R11.12 exit status 1 passes (ret > 1)', rules=('R11.12',), edits=[
+        _F22,
+        (_H, "        if ret:\n            raise RuntimeError('copy failed", "        if ret > 1:\n            raise RuntimeError('copy failed")]),
+    dict(name='R11.12 only positive exit codes fail (a command killed by a signal passes)', rules=('R11.12',), edits=[
+        _F22,
+        (_H, "        if ret:\n            raise RuntimeError('copy failed", "        if ret > 0:\n            raise RuntimeError('copy failed")],
+         note='Popen.returncode is -N for a command killed by signal N'),
+    dict(name='R11.12 failure logged, not raised', rules=('R11.12',), edits=[
+        _F22,
+        (_H, _H_CHECK, "        if ret:\n            self._log.error('copy failed: %s -> %s: %s', src, tgt, err)\n")]),
+    dict(name='R11.12 failure raised and swallowed in the same operation', rules=('R11.12',), edits=[
+        _F22,
+        (_H, _H_CHECK,
+             "        try:\n"
+             "            if ret:\n"
+             "                raise RuntimeError('copy failed: %s -> %s: %s' % (src, tgt, err))\n"
+             "        except Exception:\n"
+             "            self._log.exception('copy failed')\n")]),
+    dict(name='R11.12 stdout tested instead of the exit status', rules=('R11.12',), edits=[
+        _F22,
+        (_H, "        if ret:\n            raise RuntimeError('copy failed", "        if out:\n            raise RuntimeError('copy failed")]),
+    dict(name='R11.12 wrong element of the result taken as status', rules=('R11.12',), edits=[
+        _F22,
+        (_H, _H_CALL + _H_CHECK,
+             "        res = ru.sh_callout('cp -r %s %s' % (src, tgt))\n"
+             "        if res[0]:\n"
+             "            raise RuntimeError('copy failed: %s -> %s' % (src, tgt))\n")]),
+    dict(name='R11.12 copy through subprocess.call, status discarded', rules=('R11.12',), edits=[
+        _F22,
+        (_H, _H_IMPORT, "import os\nimport shutil\nimport requests\nimport subprocess\n"),
+        (_H, _H_CALL + _H_CHECK, "        subprocess.call(['cp', '-r', src, tgt])\n")]),
+    dict(name='R11.12 copy through subprocess.run without check', rules=('R11.12',), edits=[
+        _F22,
+        (_H, _H_IMPORT, "import os\nimport shutil\nimport requests\nimport subprocess\n"),
+        (_H, _H_CALL + _H_CHECK, "        subprocess.run(['cp', '-r', src, tgt], check=False)\n")]),
+    dict(name='R11.12 status check only when debugging', rules=('R11.12',), edits=[
+        _F22,
+        (_H, "        if ret:\n            raise RuntimeError('copy failed", "        if ret and self._log.isEnabledFor(10):\n            raise RuntimeError('copy failed")]),
+    # --- R11.13: complete_url appends the path component
+    dict(name='R11.13 seed C11-g2: the argument appended instead of its path', rules=('R11.13',), edits=[
+        (SD, _SD_APPEND, "            ret.path += '/%s' % path\n")]),
+    dict(name='R11.13 the string of the argument appended', rules=('R11.13',), edits=[
+        (SD, _SD_APPEND, "            ret.path += '/%s' % str_path\n")]),
+    dict(name='R11.13 the whole parsed URL appended', rules=('R11.13',), edits=[
+        (SD, _SD_APPEND, "            ret.path += '/%s' % purl\n")]),
+    dict(name='R11.13 the whole parsed URL appended through a local and a plain assignment', rules=('R11.13',), edits=[
+        (SD, _SD_APPEND, "            rel = str(purl)\n            ret.path = ret.path + '/' + rel\n")]),
+    dict(name='R11.13 corpus C11-r7, the argument appended', rules=('R11.13',), edits=_CORPUS4['C11-r7'] + [
+        (SD, _SD_APPEND, "            ret.path += '/%s' % path\n")]),
+    dict(name='R11.13 path component dropped', rules=('R11.13',), edits=[
+        (SD, _SD_APPEND, "            ret.path += '/'\n")],
+         note='every sandbox URL resolves to the sandbox directory'),
+    # --- R11.14: the directory made is the parent of the target
+    dict(name='R11.14 seed C11-g6: local move makes the target itself a directory', rules=('R11.14',), edits=[
+        (_H, _H_MOVE, "        self.mkdir(tgt, flags)\n        shutil.move(src, tgt)\n")]),
+    dict(name='R11.14 sibling site: local link makes the target itself a directory', rules=('R11.14',), edits=[
+        (_H, _H_LINK, "        self.mkdir(tgt, flags)\n        os.link(src, tgt)\n")]),
+    dict(name='R11.14 sibling site: local copy, through a local name', rules=('R11.14',), edits=[
+        _F22,
+        (_H, _H_CP, "        where = tgt\n        self.mkdir(where, flags)\n" + _H_CALL)]),
+    dict(name='R11.14 local download: os.makedirs on the target path', rules=('R11.14',), edits=[
+        (_H, _H_DOWN, "        os.makedirs(tgt, exist_ok=True)\n        r = requests.get(src, stream=True)\n")]),
+    dict(name='R11.14 local move: directory below the target', rules=('R11.14',), edits=[
+        (_H, _H_MOVE, "        self.mkdir(os.path.join(tgt, os.path.basename(src)), flags)\n        shutil.move(src, tgt)\n")]),
+]
+
+SILENT += [
+    # R11.6: one dict for both roles where the documented tables are the same
+    dict(name='agent input stager: one context dict serves sources and targets (same documented table)', edits=[
+        (_AI, _AI_CURL,
+              "            context = src_context\n"
+              "            src = complete_url(src, context, self._log)\n"
+              "            tgt = complete_url(tgt, context, self._log)\n")]),
+    dict(name='client tarball branch: contexts through renamed locals', edits=[
+        (_TI, _TI_CURL,
+              "                from_ctx, to_ctx = src_context, tgt_context\n"
+              "                src = complete_url(src, from_ctx, self._log)\n"
+              "                tgt = complete_url(tgt, to_ctx, self._log)\n")]),
+    dict(name='client tarball branch: contexts by keyword, target first', edits=[
+        (_TI, _TI_CURL,
+              "                tgt = complete_url(path=tgt, context=tgt_context, log=self._log)\n"
+              "                src = complete_url(path=src, context=src_context, log=self._log)\n")]),
+    # R11.12
+    dict(name='exit status compared with 0', edits=[
+        _F22,
+        (_H, "        if ret:\n            raise RuntimeError('copy failed", "        if ret != 0:\n            raise RuntimeError('copy failed")]),
+    dict(name='exit status: whole result bound, status by index', edits=[
+        _F22,
+        (_H, _H_CALL + _H_CHECK,
+             "        res = ru.sh_callout('cp -r %s %s' % (src, tgt))\n"
+             "        if res[2]:\n"
+             "            raise RuntimeError('copy failed: %s -> %s: %s' % (src, tgt, res[1]))\n")]),
+    dict(name='exit status: index taken at the call', edits=[
+        _F22,
+        (_H, _H_CALL + _H_CHECK,
+             "        rc = ru.sh_callout('cp -r %s %s' % (src, tgt))[2]\n"
+             "        if rc:\n"
+             "            raise RuntimeError('copy failed: %s -> %s' % (src, tgt))\n")]),
+    dict(name='exit status: success returns early, failure logs and raises', edits=[
+        _F22,
+        (_H, _H_CHECK,
+             "        if ret == 0:\n"
+             "            return\n"
+             "        self._log.error('copy failed: %s', err)\n"
+             "        raise RuntimeError('copy failed: %s -> %s: %s' % (src, tgt, err))\n")]),
+    dict(name='exit status: underscore for the unused parts, log between call and test', edits=[
+        _F22,
+        (_H, _H_CALL + _H_CHECK,
+             "        _, err, rc = ru.sh_callout('cp -r %s %s' % (src, tgt))\n"
+             "        self._log.debug('cp done: %s', rc)\n"
+             "        if rc:\n"
+             "            raise RuntimeError('copy failed: %s -> %s: %s' % (src, tgt, err))\n")]),
+    dict(name='exit status checked in an extracted method', edits=[
+        _F22,
+        (_H, _H_CHECK,
+             "        self._check(ret, err, src, tgt)\n\n"
+             "    def _check(self, ret, err, src, tgt):\n"
              "        if ret:\n"
-             "            raise RuntimeError('copy failed: %s' % err)\n")]),
+             "            raise RuntimeError('copy failed: %s -> %s: %s' % (src, tgt, err))\n")]),
+    dict(name='copy through subprocess.run with check=True', edits=[
+        _F22,
+        (_H, _H_IMPORT, "import os\nimport shutil\nimport requests\nimport subprocess\n"),
+        (_H, _H_CALL + _H_CHECK, "        subprocess.run(['cp', '-r', src, tgt], check=True)\n")]),
+    dict(name='copy through subprocess.check_call', edits=[
+        _F22,
+        (_H, _H_IMPORT, "import os\nimport shutil\nimport requests\nimport subprocess\n"),
+        (_H, _H_CALL + _H_CHECK, "        subprocess.check_call(['cp', '-r', src, tgt])\n")]),
+    # R11.13
+    dict(name='complete_url: path component through a local', edits=[
+        (SD, _SD_APPEND, "            rel = purl.path\n            ret.path += '/%s' % rel\n")]),
+    dict(name='complete_url: path rebuilt by a plain assignment', edits=[
+        (SD, _SD_APPEND, "            ret.path = '%s/%s' % (ret.path, purl.path)\n")]),
+    dict(name='complete_url: path appended by concatenation', edits=[
+        (SD, _SD_APPEND, "            ret.path += '/' + purl.path\n")]),
+    dict(name='complete_url: parsed URL under another name, path by format()', edits=[
+        (SD, _SD_APPEND, "            parsed = purl\n            ret.path += '/{}'.format(parsed.path)\n")]),
+    # R11.14
+    dict(name='local move: parent directory through a local', edits=[
+        (_H, _H_MOVE,
+             "        parent = os.path.dirname(tgt)\n"
+             "        self.mkdir(parent, flags)\n"
+             "        shutil.move(src, tgt)\n")]),
+    dict(name='local link: parent directory by os.path.split', edits=[
+        (_H, _H_LINK, "        self.mkdir(os.path.split(tgt)[0], flags)\n        os.link(src, tgt)\n")]),
+    dict(name='local move: parent made before the URLs are converted', edits=[
+        (_H, "    def move(self, src, tgt, flags):\n        src = ru.Url(src).path\n        tgt = ru.Url(tgt).path\n" + _H_MOVE,
+             "    def move(self, src, tgt, flags):\n"
+             "        self.mkdir(os.path.dirname(ru.Url(tgt).path), flags)\n"
+             "        src = ru.Url(src).path\n"
+             "        tgt = ru.Url(tgt).path\n"
+             "        shutil.move(src, tgt)\n")]),
+    dict(name='local download: parent directory by os.makedirs', edits=[
+        (_H, _H_DOWN, "        os.makedirs(os.path.dirname(tgt), exist_ok=True)\n        r = requests.get(src, stream=True)\n")]),
+    dict(name='local move: grandparent as well', edits=[
+        (_H, _H_MOVE,
+             "        self.mkdir(os.path.dirname(os.path.dirname(tgt)), flags)\n"
+             "        self.mkdir(os.path.dirname(tgt), flags)\n"
+             "        shutil.move(src, tgt)\n")]),
 ]
